@@ -41,10 +41,11 @@ EXPECT = {
     "eof-then-records": ("equal", False),        # whole epoch blocks after EOF are parsed as if EOF were absent
     "eof-then-garbage": ("equal", False),        # lines after EOF that are no P / * lines are dropped
     # 2. blank and whitespace-only lines
-    "blank-in-header": ("equal", False),         # label '' is in no table: skipped
-    "blank-before-first-epoch": ("equal", False),
-    "blank-in-epoch": ("raises:IndexError", False),   # data label is line[0] of the rstripped line
-    "blank-at-end": ("raises:IndexError", False),
+    # (empty / whitespace-only lines are ordinary - editors and transfer tools add one at the end: same result as without them)
+    "blank-in-header": ("equal", True),          # label '' is in no table: skipped
+    "blank-before-first-epoch": ("equal", True),
+    "blank-in-epoch": ("equal", True),           # data label is line[:1] of the rstripped line: '' is in no table
+    "blank-at-end": ("equal", True),
     # 3. header text in the data section, data text in the header
     "header-label-in-data": ("equal", False),    # /* %c %f %i + ++ #c #d ## lines between records / epochs are dropped
     "data-like-in-header": ("equal", False),     # raw P / V / EP / EOF lines in the header are dropped
@@ -67,16 +68,16 @@ RULE = ("ADVERSARIAL files (harness/c13_adv.py), per round: six abstract files i
         "and by the compiled model on the same bytes (`c13 text`), canonical outputs compared; the real parser's result is compared with the unmutated file's")
 
 ASSUMPTIONS = [
-    "adversarial kinds whose result the property defines (CRLF on all / some lines, no final newline, trailing blanks, V / EP / EV lines anywhere in the "
-    "data section): oracle = the real parser returns exactly what it returns for the unmutated file (as_dict, meta, Dataset), key adv:<kind>",
-    "adversarial kinds outside 'well-formed' (lone-CR line ends, EOF missing / in the middle / followed by records or other lines, blank lines, header-label "
+    "adversarial kinds whose result the property defines (CRLF on all / some lines, no final newline, trailing blanks, empty / whitespace-only lines "
+    "anywhere - in the header, before the first epoch, inside an epoch block, at the end -, V / EP / EV lines anywhere in the data section): oracle = the real parser returns exactly what it returns for the unmutated file (as_dict, meta, Dataset), key adv:<kind>",
+    "adversarial kinds outside 'well-formed' (lone-CR line ends, EOF missing / in the middle / followed by records or other lines, header-label "
     "lines in the data section, raw data lines in the header, re-spaced epoch lines, p-like garbage): the property does not define the result; what the real "
     "parser does (dropped = result equal to the unmutated file, or raises IndexError / ValueError) is stated in adversarial_kinds and a change of it is reported "
     "as a broken correspondence, not as a violation",
     "adversarial kinds marked 'free' (epoch line inside the header, duplicate epochs, a * line that is no epoch, truncated records, degenerate files): only "
     "model vs code is compared, the outcomes are counted",
     "V, EP and EV records are not delivered by the parser (_parse_velocity returns at once, E has no table entry); the EOF line is not interpreted; "
-    "an empty or whitespace-only line after the first epoch line (also after EOF, e.g. a trailing empty line) makes the parser raise IndexError",
+    "empty and whitespace-only lines are skipped wherever they stand",
 ]
 
 # abstract files inside File.wf (full oracle against the generating orbit model): what the parser delivers
